@@ -70,6 +70,14 @@ def historyHandlerCore (versioned : Bool) : Handler
     let scripts := steps.map (·.models)
     let region := Scope.c04 g scripts
     let regionConv := Scope.c04 g scripts (conv := true)
+    -- inside the executable scope of the C04 theorems on the model (`proved_chain*`, Proofs/ScopeB.lean) nothing is excused
+    let revs := if g.dialect == .mysql && !g.ignoreOrder then Scope.Proved.revsOf scripts else none
+    let pC := match revs with | some r => Scope.Proved.chainUp r | none => false
+    let pF := pC && (match revs with | some r => Scope.Proved.chainOrdered r | none => false)
+    let pD := pC && (match revs with | some r => Scope.Proved.chainDown r | none => false)
+    let provedNote := fun (tag : String) (p : Bool) => (if p then { items := [s!"proved[{tag}]"] } else okV : Verdict)
+    let region := if pD then none else region
+    let regionConv := if pC then none else regionConv
     -- C13 along the workflow: under the ignore-field-order option no recorded migration mentions a position, whichever
     -- way the history was loaded (text or migration folder)
     let noPositions : Check := do
@@ -81,10 +89,11 @@ def historyHandlerCore (versioned : Bool) : Handler
           c13NoPositions (up ++ down)
           k := k + 1
     -- the fingerprint clause has one more recorded region: a revision that lists a new table before an old one
-    let regionFp := regionConv.orElse fun _ => Scope.c04Order [] scripts
-    some ((((judge "C04" regionConv converge).and (judge "C04" (regionFp.map (· ++ "/fingerprint")) fingerprint)).and
+    let regionFp := if pF then none else regionConv.orElse fun _ => Scope.c04Order [] scripts
+    let notes := ((provedNote "C04" pC).and (provedNote "C04-fingerprint" pF)).and (provedNote "C04-down" pD)
+    some (notes.and ((((judge "C04" regionConv converge).and (judge "C04" (regionFp.map (· ++ "/fingerprint")) fingerprint)).and
       (judge "C04" (region.map (· ++ "/replay")) (replay g steps))).and
-      (judge "C13" regionConv noPositions))
+      (judge "C13" regionConv noPositions)))
   | _ => none
 
 def historyHandler : Handler := historyHandlerCore false
